@@ -80,15 +80,21 @@ SPEC = dict(
     modes=["", "e2e", "ts"],
     flow="harness_first",
     rule="mode '' (loc): every internal step of fixed-step return-every-step runs of the 8 AbstractIntegratorRep integrators with 1-3 "
-         "time-only witness functions (t-a, sin(at+b), (t-a)(t-b); rising/falling/both; simultaneous; zero at start; report time "
+         "time-only witness functions (t-a, sin(at+b), (t-a)(t-b); rising/falling/both; simultaneous; zero at start; DISTINCT per-trigger localisation windows in every multi-witness session; report time "
          "inside / at the end of the step; scheduled time before / near / after the step end) is one record, localisation "
-         "recomputed by the model; mode 'e2e': variable-step runs of all 10 integrators with analytic crossing times, one record "
+         "recomputed by the model; mode 'e2e': variable-step runs of all 10 integrators with analytic crossing times plus (half of the sessions) a STATE-dependent witness q - c, one record "
          "per reported event window + one per session; mode 'ts': TimeStepper sessions with triggered / scheduled-list / "
-         "periodic handlers and a periodic reporter; distinct = distinct records",
-    partial="that a sign change exists between two probe times is a property of the trajectory (trigger values are an oracle); "
-            "CPODES' own root finder is not modelled (its windows are checked by the acceptance predicate and P lines only); "
-            "TimeStepper: only the status dispatch is modelled, time order / exact scheduled times / restart state are P lines; "
-            "the time-order theorem for handlers is NOT stated because of finding C19#1 (a report time inside an event window)",
+         "periodic handlers and a periodic reporter, reportAllSignificantStates on (2/3) or the DEFAULT mode driven by repeated stepTo(t+dt) with small dt (1/3), handlers changing u and/or q, terminating handler (1/4), plus a directed scenario (1/25) with a scheduled report inside the event window; distinct = distinct records",
+    partial="(i) proved about the executed model (the loc tie runs the same definitions bit-exactly against takeOneStep): soundness AND "
+            "non-emptiness of the reported trigger list (localize_spec, localize_reports_nonempty, findEventCandidates_complete, "
+            "locIter_nonempty), window inside the step, width <= narrowestWindow ON EXIT, report time not inside, order of the listed "
+            "events, estimate strictly inside; NOT proved: termination of the localisation loop (the model has fuel; no fuel bound "
+            "theorem) and that the EARLIEST crossing of the step is the one kept ('without skipping' is predicate-only: e2e.missed, "
+            "e2e.state_witness); (ii) predicate-only: everything about TimeStepper (order, exact scheduled/periodic times, triggered "
+            "handler time, restart state, termination) - tsDispatch is a definitional table that omits the conditions of the real switch; "
+            "CPODES' own root finder (acceptance predicate + P lines, no width bound); state-dependent witnesses (q - c) are exercised in "
+            "e2e mode only (the loc replay needs trigger values the driver can evaluate = time-only); (iii) not covered: handlers that "
+            "change z or discrete state, TriggeredEventReporter, acceleration-stage witnesses",
     assumptions=[
         "trigger function values at probe times are an oracle `eval`; the theorems hold for every oracle",
         "`Infinity` is any value >= t1 and >= t1-t0 (hypotheses hinf, hinf2 of localize_spec)",
